@@ -6,16 +6,21 @@ import random
 from .common import case, guarded, ordinal_instance, strict, rand_perm
 
 ID = "C13"
-RULE = ("exhaustive: every non-empty set of distinct strict orders over 3 alternatives (both storage orders); every "
-        "set of <= 3 (quick) / <= 4 (thorough) distinct strict orders over 4 alternatives, stored in increasing and in "
-        "decreasing lexicographic order; m = 2; random: m <= 6 with arbitrary positive ids and multiplicities, votes "
-        "grown from a random tree +- noise votes (verdict compared with the reference c13.decide, which enumerates all "
-        "(m-1)^(m-1) parent assignments); planted m <= 30, n <= 30: votes grown from a random tree, only the returned "
-        "edge list is checked (c13.check). non-trivial = at least 4 alternatives and at least 2 distinct orders")
-EXHAUSTIVE = {"quick": "all sets of distinct strict orders for m = 3 (63 sets x 2 storage orders), m = 2; "
-                       "all sets of 1..3 distinct orders for m = 4 x 2 storage orders",
-              "thorough": "all sets of distinct strict orders for m = 3, m = 2; all sets of 1..4 distinct orders for "
-                          "m = 4 x 2 storage orders"}
+RULE = ("exhaustive: m = 2; every non-empty set of distinct strict orders over 3 alternatives (both storage orders); "
+        "every set of <= 3 (quick) / <= 4 (thorough) distinct strict orders over 4 alternatives, stored in increasing "
+        "and in decreasing lexicographic order; all sets of <= 2 orders over three non-contiguous id sets of size 4; "
+        "m = 5: the identity order with every other order, and with every pair of other orders (quick: 1200 sampled "
+        "pairs). random: m in 4..6 with arbitrary positive ids and multiplicities, uniformly random votes / votes grown "
+        "from a random tree (path, star, caterpillar, random) +- noise votes (uniform or an adjacent swap of a planted "
+        "vote); verdict compared with the reference c13.decide, which enumerates all (m-1)^(m-1) parent assignments. "
+        "planted m in 7..30, n <= 30: votes grown from a random tree which itself passes c13.check, so the verdict "
+        "must be True and the returned edge list must pass c13.check; the same sizes with noise votes: only 'True => "
+        "valid tree'. non-trivial = at least 4 alternatives and at least 2 distinct orders")
+EXHAUSTIVE = {"quick": "m = 2; all sets of distinct strict orders for m = 3 (63 sets x 2 storage orders); all sets of "
+                       "1..3 distinct orders for m = 4 x 2 storage orders; m = 5: identity + each other order",
+              "thorough": "m = 2; all sets of distinct strict orders for m = 3; all sets of 1..4 distinct orders for "
+                          "m = 4 x 2 storage orders; m = 5: identity + each other order, identity + each pair of "
+                          "other orders"}
 TRUSTED = ["not modelled: Trick's elimination loop in single_peaked_tree.py (is_single_peaked_on_tree, get_B, "
            "get_bottom_alts, restrict_preferences) and OrdinalInstance.flatten_strict; the implementation is compared "
            "with the proved reference decider for m <= 6 and its returned tree goes through the proved checker at "
@@ -88,7 +93,9 @@ def _ids(rng, m):
 
 def _planted(rng, m, n, noise, **tags):
     alts = _ids(rng, m)
-    _, adj = _rand_tree(rng, alts)
+    edges, adj = _rand_tree(rng, alts)
+    if noise == 0:
+        tags["planted_tree"] = [list(e) for e in edges]
     orders = []
     for _ in range(n):
         v = _grow_vote(rng, alts, adj)
@@ -132,10 +139,26 @@ def generate(tier, seed):
             out.append(_mk([1, 2, 3, 4], sub, exh=4))
             if k > 1:
                 out.append(_mk([1, 2, 3, 4], sub[::-1], exh=4))
+    # m = 4, sets of <= 2 orders over non-contiguous / unsorted ids (set iteration order differs)
+    for ids in ([10, 3, 7, 22], [8, 16, 24, 32], [5, 4, 2, 9]):
+        pp = list(itertools.permutations(ids))
+        for k in (1, 2):
+            for sub in itertools.combinations(pp, k):
+                out.append(_mk(ids, sub, exh=4))
+    # m = 5: the identity order plus one / two other orders (all of them in thorough, a sample in quick)
+    perms5 = list(itertools.permutations((1, 2, 3, 4, 5)))
+    ident, others = perms5[0], perms5[1:]
+    for o in others:
+        out.append(_mk([1, 2, 3, 4, 5], [ident, o], exh=5))
+    pairs5 = list(itertools.combinations(others, 2))
+    if tier == "quick":
+        pairs5 = rng.sample(pairs5, 1200)
+    for o1, o2 in pairs5:
+        out.append(_mk([1, 2, 3, 4, 5], [o2, ident, o1], exh=5))
     # random small, verdict compared with the reference
-    nrand = 500 if tier == "quick" else 6000
+    nrand = 1500 if tier == "quick" else 10000
     for i in range(nrand):
-        m = rng.choice([4, 5, 5, 5, 6] if tier == "quick" else [4, 5, 5, 6, 6])
+        m = rng.choice([4, 5, 5, 6, 6])
         kind = rng.randrange(5)
         if kind == 0:      # uniformly random orders (mostly negative beyond 3 votes)
             alts = _ids(rng, m)
@@ -150,12 +173,19 @@ def generate(tier, seed):
             out.append(_planted(rng, m, rng.randint(2, 8), 0, rnd=1))
         else:              # planted + noise
             out.append(_planted(rng, m, rng.randint(2, 6), rng.randint(1, 2), rnd=1))
-    # planted large: only the witness is checked
-    nbig = 150 if tier == "quick" else 1500
+    # planted large: the profile is single-peaked on the planted tree (confirmed by c13.check on that tree),
+    # so the verdict must be True and the returned edge list must pass c13.check
+    nbig = 300 if tier == "quick" else 2500
     for i in range(nbig):
         m = rng.randint(7, 30)
         n = rng.randint(2, 30)
         out.append(_planted(rng, m, n, 0, op="c13.check", big=1))
+    # large with noise votes: the reference cannot be run; only "True => valid tree" is checked
+    nnoisy = 150 if tier == "quick" else 1500
+    for i in range(nnoisy):
+        m = rng.randint(7, 30)
+        n = rng.randint(2, 20)
+        out.append(_planted(rng, m, n, rng.randint(1, 2), op="c13.witness", big=1))
     return out
 
 
@@ -188,43 +218,69 @@ def _orders(c):
     return [o for o, _ in c["payload"][1]]
 
 
+def _plan(c):
+    """labels of the oracle requests of a case, in order"""
+    plan = []
+    if c["op"] == "c13.decide":
+        plan.append("decide")
+    plan.append("check")
+    if c["tags"].get("planted_tree"):
+        plan.append("planted")
+    if len(c["payload"][0]) <= 4:
+        plan.append("check_slow")
+        if c["op"] == "c13.decide":
+            plan.append("decide_slow")
+    return plan
+
+
 def oracle_requests(c, r):
     alts = c["payload"][0]
     orders = _orders(c)
-    reqs = []
-    if c["op"] == "c13.decide":
-        reqs.append(("c13.decide", [alts, orders]))
-    else:
-        reqs.append(("c13.tree", [alts, []]))          # placeholder keeps positions fixed
     edges = []
     if isinstance(r, list) and r and r[0] == 0 and r[1][0] == 1:
         edges = r[1][1]
-    reqs.append(("c13.check", [alts, orders, edges]))
-    if len(alts) <= 4:
-        reqs.append(("c13.check_slow", [alts, orders, edges]))
-        reqs.append(("c13.decide_slow", [alts, orders]))
+    reqs = []
+    for lb in _plan(c):
+        if lb == "decide":
+            reqs.append(("c13.decide", [alts, orders]))
+        elif lb == "decide_slow":
+            reqs.append(("c13.decide_slow", [alts, orders]))
+        elif lb == "check":
+            reqs.append(("c13.check", [alts, orders, edges]))
+        elif lb == "check_slow":
+            reqs.append(("c13.check_slow", [alts, orders, edges]))
+        elif lb == "planted":
+            reqs.append(("c13.check", [alts, orders, c["tags"]["planted_tree"]]))
     return reqs
+
+
+def _m(c, mres):
+    return dict(zip(_plan(c), mres))
 
 
 def judge(c, r, mres):
     if not (isinstance(r, list) and r and r[0] == 0):
         return {"kind": "exception", "reason": "is_single_peaked_on_tree raised: %r" % (r,)}
     verdict, edges = r[1]
-    if c["op"] == "c13.decide":
-        ref = mres[0]
-        if verdict != ref:
-            return "verdict %s, reference spt_decide says %s" % (bool(verdict), bool(ref))
-    else:
-        # planted positive: single-peaked on the planted tree by construction
+    m = _m(c, mres)
+    if "planted" in m and m["planted"] != 1:
+        return {"kind": "broken-correspondence", "reason": "generator: planted tree rejected by spt_check"}
+    if "check_slow" in m and m["check_slow"] != m["check"]:
+        return {"kind": "broken-correspondence", "reason": "spt_checkf and spt_check disagree"}
+    if "decide_slow" in m and m["decide_slow"] != m["decide"]:
+        return {"kind": "broken-correspondence", "reason": "spt_decide and spt_decide_slow disagree"}
+    if "decide" in m:
+        if m.get("planted") == 1 and m["decide"] != 1:
+            return {"kind": "broken-correspondence", "reason": "spt_decide rejects a profile with a checked witness"}
+        if verdict != m["decide"]:
+            return "verdict %s, reference spt_decide says %s" % (bool(verdict), bool(m["decide"]))
+    elif c["op"] == "c13.check":
+        # the planted tree passed the proved checker, hence the profile is single-peaked on a tree
         if verdict != 1:
-            return "verdict False on a profile grown from a tree (every prefix of every vote connected)"
-    if verdict == 1 and mres[1] != 1:
+            return "verdict False on a profile that is single-peaked on the tree %r (accepted by spt_check)" \
+                   % (c["tags"]["planted_tree"],)
+    if verdict == 1 and m["check"] != 1:
         return "verdict True but the returned edge list %r is rejected by spt_check" % (edges,)
-    if len(mres) > 2:
-        if mres[2] != mres[1]:
-            return {"kind": "broken-correspondence", "reason": "spt_checkf and spt_check disagree"}
-        if c["op"] == "c13.decide" and mres[3] != mres[0]:
-            return {"kind": "broken-correspondence", "reason": "spt_decide and spt_decide_slow disagree"}
     return None
 
 
@@ -235,10 +291,17 @@ def nontrivial(c, r, m):
 def stats(c, r, m):
     mm = len(c["payload"][0])
     n = len(c["payload"][1])
+    d = _m(c, m)
+    v = "?"
+    if isinstance(r, list) and r and r[0] == 0:
+        v = "T" if r[1][0] == 1 else "F"
     if c["op"] == "c13.decide":
-        return ["decide m=%d ref=%s" % (mm, "T" if m[0] == 1 else "F"),
-                "decide n=%s ref=%s" % (n if n <= 4 else ">4", "T" if m[0] == 1 else "F")]
-    return ["planted m=%s witness=%s" % ("7-15" if mm <= 15 else "16-30", "ok" if m[1] == 1 else "bad")]
+        ref = "T" if d["decide"] == 1 else "F"
+        return ["decide m=%d ref=%s" % (mm, ref), "decide n=%s ref=%s" % (n if n <= 4 else ">4", ref)]
+    size = "7-15" if mm <= 15 else "16-30"
+    if c["op"] == "c13.check":
+        return ["planted m=%s verdict=%s witness=%s" % (size, v, "ok" if d["check"] == 1 else "bad")]
+    return ["noisy-large m=%s verdict=%s%s" % (size, v, " witness=ok" if (v == "T" and d["check"] == 1) else "")]
 
 
 def describe(c):
@@ -251,7 +314,7 @@ def shrink(c):
     alts, prof = c["payload"]
     for i in range(len(prof)):
         if len(prof) > 1:
-            yield dict(c, payload=[alts, prof[:i] + prof[i + 1:]])
+            yield dict(c, payload=[alts, prof[:i] + prof[i + 1:]])     # a sub-profile keeps the planted witness
     for i in range(len(prof)):
         if prof[i][1] > 1:
             yield dict(c, payload=[alts, prof[:i] + [[prof[i][0], 1]] + prof[i + 1:]])
